@@ -6,6 +6,7 @@ import (
 	"crypto/subtle"
 	"io"
 
+	"github.com/aperturerobotics/bifrost/util/extra25519"
 	"github.com/pkg/errors"
 )
 
@@ -85,6 +86,11 @@ func (k *Ed25519PublicKey) Equals(o Key) bool {
 
 // Verify checks a signature against the input data.
 func (k *Ed25519PublicKey) Verify(data []byte, sig []byte) (bool, error) {
+	// ed25519.Verify accepts the signature (identity, 0) over any message for a
+	// public key of small order: such a key has no private key, reject it.
+	if len(k.k) != ed25519.PublicKeySize || extra25519.IsEdLowOrder(k.k) {
+		return false, errors.New("ed25519: public key is of small order")
+	}
 	return ed25519.Verify(k.k, data, sig), nil
 }
 
